@@ -313,7 +313,8 @@ func Run(c *vl.Ctx) {
 			c.Sample(map[string]string{"id": cases[i].ID, "program": fl.Render(cases[i].P), "expected": cases[i].Want.String()})
 		}
 	}
-	c.Count("programs_compiled", r.Programs)
+	r.Report()
+	r.Close()
 	c.Assume = append(c.Assume, "an out-of-range index stops with `panic: index out of bounds`, non-zero status, after every earlier line was delivered (stdout is a pipe)",
 		"a compile-time T0009 is accepted only when the access is out of range on every execution and no append precedes it",
 		"no aliasing of dynamic arrays (a callee only reads the array it receives)")
